@@ -1,2 +1,59 @@
+//! C12: broadcast arithmetic follows NumPy semantics.
 use crate::*;
-pub fn run(_r: &mut Rng, _o: &mut Fails) {}
+use compute::prelude::*;
+
+fn compat(a: usize, b: usize) -> bool { a == b || a == 1 || b == 1 }
+
+pub fn run(rng: &mut Rng, out: &mut Fails) {
+    for r1 in 1..=5usize { for c1 in 1..=5usize { for r2 in 1..=5usize { for c2 in 1..=5usize {
+        let mut cnt = 0.0;
+        let a: Vec<f64> = (0..r1 * c1).map(|_| { cnt += 1.0; cnt }).collect();
+        let b: Vec<f64> = (0..r2 * c2).map(|_| { cnt += 1.5; cnt }).collect();
+        let m1 = Matrix::new(a.clone(), r1 as i32, c1 as i32);
+        let m2 = Matrix::new(b.clone(), r2 as i32, c2 as i32);
+        let ok = compat(r1, r2) && compat(c1, c2);
+        let (rr, cc) = (r1.max(r2), c1.max(c2));
+        for op in 0..4 {
+            let opn = ["+", "-", "*", "/"][op];
+            let f = |x: f64, y: f64| match op { 0 => x + y, 1 => x - y, 2 => x * y, _ => x / y };
+            let inp = format!("{}x{} {} {}x{}", r1, c1, opn, r2, c2);
+            let g = catch(|| match op { 0 => &m1 + &m2, 1 => &m1 - &m2, 2 => &m1 * &m2, _ => &m1 / &m2 });
+            let fname = format!("Matrix {} Matrix", opn);
+            match (ok, g) {
+                (false, Some(g)) => fail(out, &fname, "C12.valid", inp.clone(), format!("returned {}x{}", g.nrows, g.ncols), "panic (incompatible shapes)".into()),
+                (true, None) => fail(out, &fname, "C12.no_valid_input_rejected", inp.clone(), "panic".into(), format!("{}x{} result", rr, cc)),
+                (true, Some(g)) => {
+                    if g.nrows != rr || g.ncols != cc || g.data.v.len() != rr * cc { fail(out, &fname, "C12.shape", inp.clone(), format!("{}x{}", g.nrows, g.ncols), format!("{}x{}", rr, cc)); continue; }
+                    for i in 0..rr { for j in 0..cc {
+                        let x = a[(if r1 == 1 { 0 } else { i }) * c1 + (if c1 == 1 { 0 } else { j })];
+                        let y = b[(if r2 == 1 { 0 } else { i }) * c2 + (if c2 == 1 { 0 } else { j })];
+                        if !same(g.data.v[i * cc + j], f(x, y)) { fail(out, &fname, "C12.entry", format!("{} entry ({},{})", inp, i, j), format!("{}", g.data.v[i * cc + j]), format!("{}", f(x, y))); }
+                    } }
+                }
+                _ => {}
+            }
+            // other ownership forms agree with the borrowed form
+            if ok {
+                let g1 = catch(|| match op { 0 => m1.clone() + m2.clone(), 1 => m1.clone() - m2.clone(), 2 => m1.clone() * m2.clone(), _ => m1.clone() / m2.clone() });
+                let g0 = catch(|| match op { 0 => &m1 + &m2, 1 => &m1 - &m2, 2 => &m1 * &m2, _ => &m1 / &m2 });
+                if let (Some(x), Some(y)) = (g0, g1) { if !same_vec(&x.data.v, &y.data.v) { fail(out, &fname, "C12.forms", inp.clone(), "owned form differs".into(), "same as borrowed".into()); } }
+            }
+            // Matrix op Vector (vector = single row) and Vector op Matrix
+            if r2 == 1 {
+                let v = Vector::new(b.clone());
+                let gv = catch(|| match op { 0 => &m1 + &v, 1 => &m1 - &v, 2 => &m1 * &v, _ => &m1 / &v });
+                let gm = catch(|| match op { 0 => &m1 + &m2, 1 => &m1 - &m2, 2 => &m1 * &m2, _ => &m1 / &m2 });
+                match (gv, gm) { (Some(x), Some(y)) => if !same_vec(&x.data.v, &y.data.v) || x.nrows != y.nrows { fail(out, &format!("Matrix {} Vector", opn), "C12.vector_row", inp.clone(), format!("{:?}", x.data.v), format!("{:?}", y.data.v)) },
+                    (None, Some(_)) | (Some(_), None) => fail(out, &format!("Matrix {} Vector", opn), "C12.vector_row", inp.clone(), "panic mismatch".into(), "same as 1xn matrix".into()), _ => {} }
+            }
+            if r1 == 1 {
+                let v = Vector::new(a.clone());
+                let gv = catch(|| match op { 0 => &v + &m2, 1 => &v - &m2, 2 => &v * &m2, _ => &v / &m2 });
+                let gm = catch(|| match op { 0 => &m1 + &m2, 1 => &m1 - &m2, 2 => &m1 * &m2, _ => &m1 / &m2 });
+                match (gv, gm) { (Some(x), Some(y)) => if !same_vec(&x.data.v, &y.data.v) || x.nrows != y.nrows { fail(out, &format!("Vector {} Matrix", opn), "C12.vector_row", inp.clone(), format!("{:?}", x.data.v), format!("{:?}", y.data.v)) },
+                    (None, Some(_)) | (Some(_), None) => fail(out, &format!("Vector {} Matrix", opn), "C12.vector_row", inp.clone(), "panic mismatch".into(), "same as 1xn matrix".into()), _ => {} }
+            }
+        }
+        if out.len() > 5 { return; }
+    } } } }
+}
